@@ -398,6 +398,8 @@ def handle : List String → String
       | some p, some c => handleMut mu shape m p c count size
       | _, _ => "BAD proto/cellblock"
     | _, _, _, _, _, _ => "BAD args"
+  | "batch-broken" :: status :: rest =>
+    s!"SPEC key=batch-request-broken-{status} {" ".intercalate rest} (the multi request could not be split into its actions' cells)"
   | _ => "BAD command"
 
 end GV.Drive.C10
